@@ -471,4 +471,117 @@ theorem dedup_keys : ∀ (l : List Sol) (ps acc : List Path), pathsOf l = .ok ps
             rw [if_neg hm, if_neg hm']
             simp [hk, Path.dedupKey]
 
+/-! ## a stable sort commutes with filtering; solutions that yield nothing can be removed before `finish` -/
+
+theorem prefix_unique {α : Type} (le : α → α → Bool) (a : α) : ∀ (P P' Q Q' : List α), P ++ Q = P' ++ Q' →
+    (∀ b ∈ P, le a b = false) → (∀ b ∈ P', le a b = false) →
+    (∀ b ∈ Q, le a b = true) → (∀ b ∈ Q', le a b = true) → P = P' := by
+  intro P
+  induction P with
+  | nil =>
+    intro P' Q Q' h _ hP' hQ _
+    cases P' with
+    | nil => rfl
+    | cons y ys =>
+      simp at h
+      have h1 := hQ y (by rw [h]; simp)
+      have h2 := hP' y (by simp)
+      rw [h1] at h2; cases h2
+  | cons x xs ih =>
+    intro P' Q Q' h hP hP' hQ hQ'
+    cases P' with
+    | nil =>
+      simp at h
+      have h1 := hQ' x (by rw [← h]; simp)
+      have h2 := hP x (by simp)
+      rw [h1] at h2; cases h2
+    | cons y ys =>
+      simp only [List.cons_append, List.cons.injEq] at h
+      rw [h.1, ih ys Q Q' h.2 (fun b hb => hP b (List.mem_cons_of_mem _ hb))
+        (fun b hb => hP' b (List.mem_cons_of_mem _ hb)) hQ hQ']
+
+theorem filter_mergeSort {α : Type} (le : α → α → Bool)
+    (trans : ∀ (a b c : α), le a b → le b c → le a c) (total : ∀ (a b : α), le a b || le b a)
+    (p : α → Bool) : ∀ (l : List α), (l.mergeSort le).filter p = (l.filter p).mergeSort le := by
+  intro l
+  induction l with
+  | nil => simp
+  | cons a l ih =>
+    obtain ⟨l₁, l₂, h1, h2, h3⟩ := List.mergeSort_cons trans total a l
+    by_cases hp : p a = true
+    · obtain ⟨m₁, m₂, g1, g2, g3⟩ := List.mergeSort_cons trans total a (l.filter p)
+      have hf : (a :: l).filter p = a :: l.filter p := by simp [List.filter_cons, hp]
+      rw [hf, g1, h1, List.filter_append, List.filter_cons, if_pos hp]
+      have heq : m₁ ++ m₂ = l₁.filter p ++ l₂.filter p := by
+        rw [← g2, ← ih, h2, List.filter_append]
+      have s1 := List.pairwise_mergeSort trans total (a :: l)
+      rw [h1, List.pairwise_append] at s1
+      have s2 := List.pairwise_mergeSort trans total (a :: l.filter p)
+      rw [g1, List.pairwise_append] at s2
+      have hm : m₁ = l₁.filter p := by
+        apply prefix_unique le a m₁ (l₁.filter p) m₂ (l₂.filter p) heq
+        · intro b hb; simpa using g3 b hb
+        · intro b hb; simpa using h3 b (List.mem_filter.mp hb).1
+        · intro b hb; exact (List.pairwise_cons.mp s2.2.1).1 b hb
+        · intro b hb; exact (List.pairwise_cons.mp s1.2.1).1 b (List.mem_filter.mp hb).1
+      rw [hm] at heq ⊢
+      rw [List.append_cancel_left heq]
+    · have hf : (a :: l).filter p = l.filter p := by simp [List.filter_cons, hp]
+      rw [hf, h1, List.filter_append, List.filter_cons, if_neg hp, ← List.filter_append, ← h2, ih]
+
+theorem sortSols_filter (p : Sol → Bool) (l : List Sol) : (sortSols l).filter p = sortSols (l.filter p) :=
+  filter_mergeSort solLe (fun a b c => lexLe_trans a.key b.key c.key) (fun a b => lexLe_total a.key b.key) p l
+
+/-- a solution contributes nothing to the result: `path()` drops it, or its path is loop-filtered -/
+def Sol.yieldsNothing (s : Sol) : Prop :=
+  solPath s = .dropped ∨ ∃ p, solPath s = .path p ∧ hasLoops p = true
+
+theorem pathsOf_filter (Q : Sol → Bool) : ∀ (l : List Sol) (ps : List Path), pathsOf l = .ok ps →
+    (∀ s ∈ l, Q s = false → s.yieldsNothing) →
+    ∃ ps', pathsOf (l.filter Q) = .ok ps' ∧
+      ps'.filter (fun p => !hasLoops p) = ps.filter (fun p => !hasLoops p) := by
+  intro l
+  induction l with
+  | nil => intro ps h _; simp [pathsOf] at h; subst h; exact ⟨[], by simp [pathsOf], rfl⟩
+  | cons s rest ih =>
+    intro ps h hy
+    unfold pathsOf at h
+    cases hsp : solPath s with
+    | panic st => rw [hsp] at h; simp at h
+    | dropped =>
+      rw [hsp] at h
+      simp only at h
+      rcases ih ps h (fun x hx => hy x (List.mem_cons_of_mem _ hx)) with ⟨ps', h1, h2⟩
+      by_cases hq : Q s = true
+      · refine ⟨ps', ?_, h2⟩
+        rw [List.filter_cons, if_pos hq]
+        unfold pathsOf
+        rw [hsp]; exact h1
+      · exact ⟨ps', by rw [List.filter_cons, if_neg hq]; exact h1, h2⟩
+    | path p =>
+      rw [hsp] at h
+      simp only at h
+      cases hr : pathsOf rest with
+      | error st => rw [hr] at h; simp at h
+      | ok ps0 =>
+        rw [hr] at h
+        simp only at h
+        injection h with h
+        subst h
+        rcases ih ps0 hr (fun x hx => hy x (List.mem_cons_of_mem _ hx)) with ⟨ps', h1, h2⟩
+        by_cases hq : Q s = true
+        · refine ⟨p :: ps', ?_, ?_⟩
+          · rw [List.filter_cons, if_pos hq]
+            unfold pathsOf
+            rw [hsp]; simp only [h1]
+          · simp only [List.filter_cons, h2]
+        · have hq' : Q s = false := by simpa using hq
+          refine ⟨ps', by rw [List.filter_cons, if_neg hq]; exact h1, ?_⟩
+          rcases hy s List.mem_cons_self hq' with hd | ⟨p', hp', hl⟩
+          · rw [hsp] at hd; cases hd
+          · rw [hsp] at hp'
+            injection hp' with hp'
+            subst hp'
+            simp [List.filter_cons, hl, h2]
+
 end ScionVerif.Comb
